@@ -41,6 +41,27 @@ CHECKS['C14'] = dict(
     technique='Lean 4 proof (verdict iff X12 definition, all notes/lengths/patterns) + exhaustive differential over all shipped notes',
     design='DESIGN.md §3 C14')
 
+CHECKS['C15'] = dict(
+    text='Lean theorems: for every element definition, setting and value, a code is reported by the model of element_if.is_valid iff the '
+         'set-valued specification (written from the property statement on top of the C13 languages) implies it (elemErrors_spec); the '
+         'boolean is false iff an error was reported; admissible values yield no error and conversely; composite-level counterpart '
+         '(compErrors_spec). Tied to /repo by a differential over EVERY element, sub-element and composite node of every loadable map x '
+         'a per-node value catalogue x charset B/E x exclusions on/off (real is_valid with errh_list vs model vs independent Python spec).',
+    note=COMMON_NOTE + ' External-set membership and regex verdicts are Boolean parameters of the model; the harness computes them '
+         'with its own parse of codes.xml and with re.',
+    technique='Lean 4 proof (reported codes = spec set, all definitions/values) + exhaustive-over-nodes differential with a value catalogue',
+    design='DESIGN.md §3 C15')
+CHECKS['C17'] = dict(
+    text='Lean theorems: parse (print p) = p for every well-formed structured path with any number of loop ids (parse_print, '
+         'print_parse_print); the written-out last-component matcher accepts exactly the designator language (matchLast_none_iff); '
+         'refusal rules (qualifier_needs_segment, index_after_loops_needs_segment); segment laws get_set, set_pads, set_frame, '
+         'foreign_segment_refused for all segments, designators and values in the stated domain. Tied to /repo by grammar enumeration '
+         '(real X12Path fields/format/equality/errors vs model vs the generating parts), every map node path, and random set/get '
+         'histories on real Segment objects.',
+    note=COMMON_NOTE + ' Values written to a whole element are free of the component separator (element separator for ISA16).',
+    technique='Lean 4 proof (parse/print round trip, get/set/frame laws, unbounded) + grammar enumeration and op-history differential',
+    design='DESIGN.md §3 C17')
+
 PENDING_REASON = 'check under construction in this session (see DESIGN.md §3); not yet claimed'
 
 
